@@ -163,6 +163,50 @@ func applyExplicit(h *hist, c *mCase, ptr map[int]*tree.Node) *Event {
 		return h.finish(ev)
 	case "Resolve":
 		return opResolve(h)
+	case "GraftTreeOnTip", "Merge":
+		var mg mTree
+		b, _ := json.Marshal(a["g"])
+		if err := json.Unmarshal(b, &mg); err != nil {
+			fatal("second tree of the case: %v", err)
+		}
+		g, _, err := buildModelTree(&mg, 0)
+		if err != nil {
+			fatal("second tree of the case: %v", err)
+		}
+		pg := project(g, h.opt)
+		var ev *Event
+		if c.Op == "Merge" {
+			ev = &Event{Op: "Merge"}
+			guard(ev, func() error { return h.t.Merge(g) })
+		} else {
+			tip := fmt.Sprint(a["tip"])
+			ev = &Event{Op: "GraftTreeOnTip", Args: map[string]interface{}{"tip": tip}}
+			guard(ev, func() error {
+				if err := h.t.GraftTreeOnTip(tip, g); err != nil {
+					return err
+				}
+				return h.t.ReinitIndexes()
+			})
+		}
+		ev = h.finish(ev)
+		ev.Obj2 = "g"
+		ev.Post2 = pg
+		return ev
+	case "SubTree":
+		n := ptr[int(argInt(a["node"]))]
+		id := h.p.nodeId[n]
+		ev := &Event{Op: "SubTree", Args: map[string]interface{}{"node": id}}
+		var sub *tree.Tree
+		guard(ev, func() error { sub = h.t.SubTree(n); return nil })
+		if ev.Panic || sub == nil {
+			return h.finish(ev)
+		}
+		ev = h.finish(ev)
+		ev.Obj2 = "b"
+		ev.Post2 = project(sub, h.opt)
+		return ev
+	case "Clone":
+		return opClone(h)
 	case "NNIAll":
 		return opNNIAll(h)
 	case "RemoveSingleNodes":
@@ -203,6 +247,8 @@ func replayEditCases(cases, out, prop string, shard, nshards int) (int, map[stri
 		opt = ProjOpt{Enum: true, Text: true}
 	case "C04":
 		opt = ProjOpt{Idx: true}
+	case "C15", "C17":
+		opt = ProjOpt{Text: true}
 	}
 	sc := bufio.NewScanner(f)
 	sc.Buffer(make([]byte, 1<<20), 1<<26)
